@@ -2738,3 +2738,52 @@ def _vec_extend(I, a, d):
             return UNIT
         raise Inconclusive("Vec::append")
     return _extend(I, a, d)
+
+
+@T.path("core::str::strip_suffix", "str::strip_suffix")
+def _str_strip_suffix(I, a, d):
+    s, p = sb.concretise_atoms(as_sbytes(a[0])), _pattern_bytes(a[1])
+    if p is None or len(p) != 1:
+        raise Inconclusive("strip_suffix pattern")
+    if not s.segs:
+        return NONE()
+    last = s.segs[-1]
+    if isinstance(last, bytes):
+        if last.endswith(p):
+            return SOME(BytesRef(SBytes(s.segs[:-1] + (last[:-1],)), "str"))
+        return NONE()
+    if isinstance(last, sb.SymByte):
+        if I.w.branch(last.bv == z3.BitVecVal(p[0], 8), "strip_suffix-sym"):
+            return SOME(BytesRef(SBytes(s.segs[:-1]), "str"))
+        return NONE()
+    if isinstance(last, sb.CutSeg):
+        if I.w.branch(sb.cut_cond(last, lambda b: b.endswith(p)), "strip_suffix-cut"):
+            return SOME(BytesRef(SBytes(s.segs[:-1] + (sb.CutSeg(last.data, last.lo, I._sub(last.hi, 1)),)), "str"))
+        return NONE()
+    if isinstance(last, sb.Atom) or (isinstance(last, sb.Junk) and isinstance(last.id, tuple) and last.id[:1] == ("atomcut",)):
+        if p[0] in b"\n\r\t ":
+            return NONE()
+    raise Inconclusive("strip_suffix over %r" % (last,))
+
+
+@T.path("std::string::String::clear", "alloc::string::String::clear")
+def _string_clear(I, a, d):
+    peel(a[0]).sb = SBytes()
+    return UNIT
+
+
+@T.path("std::string::String::with_capacity", "alloc::string::String::with_capacity")
+def _string_with_capacity(I, a, d):
+    return mk_string(b"")
+
+
+@T.path("std::string::String::truncate", "alloc::string::String::truncate")
+def _string_truncate(I, a, d):
+    return _vec_truncate(I, a, d)
+
+
+@T.path("std::string::String::push", "alloc::string::String::push")
+def _string_push(I, a, d):
+    b = peel(a[0])
+    b.sb = b.sb + chr(a[1]).encode("utf-8")
+    return UNIT
